@@ -1238,10 +1238,70 @@ fn gen_node(rng: &mut Rng, depth: usize) -> NodeSpec {
     }
 }
 
+/// A copy of `n` in which exactly ONE parameter of one leaf differs (field, operator, literal,
+/// multifield operation / operator / compare value): two nodes that a cache key must tell apart
+/// although everything else about them is equal.
+fn near_duplicate(rng: &mut Rng, n: &NodeSpec) -> NodeSpec {
+    fn other<'a>(rng: &mut Rng, pool: &[&'a str], cur: &str) -> String {
+        let alts: Vec<&&str> = pool.iter().filter(|x| **x != cur).collect();
+        rng.pick(&alts).to_string()
+    }
+    match n {
+        NodeSpec::Alpha(f, o, v) => match rng.below(3) {
+            0 => NodeSpec::Alpha(other(rng, &["a", "b", "missing"], f), o.clone(), v.clone()),
+            1 => NodeSpec::Alpha(f.clone(), other(rng, &MEMO_OPS, o), v.clone()),
+            _ => NodeSpec::Alpha(f.clone(), o.clone(), other(rng, &MEMO_VALUES, v)),
+        },
+        NodeSpec::Multi { field, operation, value, operator, compare_value } => {
+            let mut m = (field.clone(), operation.clone(), value.clone(), operator.clone(), compare_value.clone());
+            match rng.below(4) {
+                0 => m.0 = other(rng, &["a", "b"], field),
+                1 if operation == "count" => m.4 = Some(other(rng, &["0", "1", "2", "5"], compare_value.as_deref().unwrap_or(""))),
+                2 if operation == "count" => m.3 = Some(other(rng, &[">", "==", "<", ">=", "!="], operator.as_deref().unwrap_or(""))),
+                3 if operation == "contains" => m.2 = Some(other(rng, &["1", "true", "abc", "25"], value.as_deref().unwrap_or(""))),
+                _ => {
+                    m.1 = other(rng, &["empty", "not_empty", "first", "collect"], operation);
+                    m.2 = None;
+                    m.3 = None;
+                    m.4 = None;
+                }
+            }
+            NodeSpec::Multi { field: m.0, operation: m.1, value: m.2, operator: m.3, compare_value: m.4 }
+        }
+        NodeSpec::And(l, r) => {
+            if rng.bool() {
+                NodeSpec::And(Box::new(near_duplicate(rng, l)), r.clone())
+            } else {
+                NodeSpec::And(l.clone(), Box::new(near_duplicate(rng, r)))
+            }
+        }
+        NodeSpec::Or(l, r) => {
+            if rng.bool() {
+                NodeSpec::Or(Box::new(near_duplicate(rng, l)), r.clone())
+            } else {
+                NodeSpec::Or(l.clone(), Box::new(near_duplicate(rng, r)))
+            }
+        }
+        NodeSpec::Not(x) => NodeSpec::Not(Box::new(near_duplicate(rng, x))),
+        NodeSpec::Exists(x) => NodeSpec::Exists(Box::new(near_duplicate(rng, x))),
+        NodeSpec::Forall(x) => NodeSpec::Forall(Box::new(near_duplicate(rng, x))),
+    }
+}
+
 fn gen_memo(rng: &mut Rng) -> Case {
     let classes = print_classes();
-    let nn = 1 + rng.below(3);
-    let nodes: Vec<NodeSpec> = (0..nn).map(|_| gen_node(rng, 2)).collect();
+    let mut nn = 1 + rng.below(3);
+    let mut nodes: Vec<NodeSpec> = (0..nn).map(|_| gen_node(rng, 2)).collect();
+    if rng.chance(1, 8) {
+        // a `count` node over an array-valued field, so that compare values matter
+        nodes[0] = NodeSpec::Multi { field: "a".into(), operation: "count".into(), value: None, operator: Some(rng.pick(&[">", "==", "<"]).to_string()), compare_value: Some(rng.pick(&["0", "1", "2"]).to_string()) };
+    }
+    if rng.chance(1, 2) {
+        let k = rng.below(nn);
+        let twin = near_duplicate(rng, &nodes[k]);
+        nodes.push(twin);
+        nn += 1;
+    }
     let collide = rng.chance(1, 2);
     let nf = 2 + rng.below(3);
     let mut factsets: Vec<FactMap> = Vec::new();
@@ -1327,7 +1387,7 @@ impl Check for C16 {
         "C16"
     }
     fn rule(&self) -> String {
-        "Four differential monitors, histories of 1..=10 random ops each, value domain = integers, floats incl. 0.0/-0.0/NaN/+-inf, numeric-looking strings, booleans, (nested) arrays, null (37 values). alpha: ops insert/create_index/drop_index/filter_tracked/auto_tune on the real AlphaMemoryIndex, inserts mirrored into a never-indexed shadow; after EVERY op filter(field, v) is compared as a multiset for 3 fields x every domain value (3/5 of the histories use the domain without NaN/-0.0). beta: ops add/remove (live, removed-before and never-added positions) on BetaMemoryIndex; after every op lookup(key) for the printed key of every domain value and every live fact is compared with the scan of the harness's live list. memo: one MemoizedEvaluator, 2..=10 evaluate calls over 1..=3 generated nodes (alpha nodes with 11 operators x 16 literals, And/Or/Not/Exists/Forall to depth 2, multifield nodes) x 2..=4 fact sets; in half of the histories the fact sets print alike (as_str) but differ in type; every call is compared with evaluate_typed. conclusion: ops add_rule (1..=3 actions Set/Log/MethodCall/Retract, 1/6 disabled) / remove_rule (present or absent name) on ConclusionIndex; after every op find_candidates(goal) must contain every enabled present rule with a Set on the goal's field, for 7 fields x 13 goal spellings (bare field, == != > >= < <= contains matches, tight/blank spacing); 1/3 of the histories add goals whose string literal holds operator text and negated goals (NOT / !). EXHAUSTIVE sub-spaces: all (stored value, probe value) pairs of the domain for alpha (index created before and after the insert) and beta; all ordered pairs of print-alike values x 11 operators x 16 literals for memo. Non-trivial: alpha = some filter answered through an index was non-empty and some was empty; beta / conclusion = a non-empty expected answer after an effective remove; memo = at least one cache hit and both verdicts observed. Distinct by the whole history.".into()
+        "Four differential monitors, histories of 1..=10 random ops each, value domain = integers, floats incl. 0.0/-0.0/NaN/+-inf, numeric-looking strings, booleans, (nested) arrays, null (37 values). alpha: ops insert/create_index/drop_index/filter_tracked/auto_tune on the real AlphaMemoryIndex, inserts mirrored into a never-indexed shadow; after EVERY op filter(field, v) is compared as a multiset for 3 fields x every domain value (3/5 of the histories use the domain without NaN/-0.0). beta: ops add/remove (live, removed-before and never-added positions) on BetaMemoryIndex; after every op lookup(key) for the printed key of every domain value and every live fact is compared with the scan of the harness's live list. memo: one MemoizedEvaluator, 2..=10 evaluate calls over 1..=3 generated nodes (in half of the histories plus a near-duplicate of one of them: exactly one parameter of one leaf differs) (alpha nodes with 11 operators x 16 literals, And/Or/Not/Exists/Forall to depth 2, multifield nodes) x 2..=4 fact sets; in half of the histories the fact sets print alike (as_str) but differ in type; every call is compared with evaluate_typed. conclusion: ops add_rule (1..=3 actions Set/Log/MethodCall/Retract, 1/6 disabled) / remove_rule (present or absent name) on ConclusionIndex; after every op find_candidates(goal) must contain every enabled present rule with a Set on the goal's field, for 7 fields x 13 goal spellings (bare field, == != > >= < <= contains matches, tight/blank spacing); 1/3 of the histories add goals whose string literal holds operator text and negated goals (NOT / !). EXHAUSTIVE sub-spaces: all (stored value, probe value) pairs of the domain for alpha (index created before and after the insert) and beta; all ordered pairs of print-alike values x 11 operators x 16 literals for memo. Non-trivial: alpha = some filter answered through an index was non-empty and some was empty; beta / conclusion = a non-empty expected answer after an effective remove; memo = at least one cache hit and both verdicts observed. Distinct by the whole history.".into()
     }
     fn assumptions(&self) -> Vec<String> {
         vec![
